@@ -77,6 +77,19 @@ EXPECTED_PROBES = ["fault.repeat", "fault.after_others", "fault.wall_offset", "f
                    "fault.hashseed_1", "fault.hashseed_4242", "fault.fresh_spawn", "probe.event_counter_dirty",
                    "probe.module_random_drawn", "probe.numpy_random_drawn", "probe.uuid4_called_by_model",
                    "probe.wall_clock_read_by_model", "probe.difference_confirmed_in_subprocess", "obs.random_seed_only_runs"]
+# rare-branch probes of the models themselves (did the randomised / faulty path of the component actually run?)
+ZOO_PROBES = (
+    "balked behaviour_decisions behaviour_influence_rounds btree_split cache_eviction cache_eviction_random_policy "
+    "cache_writeback_flush client_retry_with_jitter client_timeout codel_drop crdt_gossip_random_peer crdt_keys_merged "
+    "election_leader_known election_randomized_ballot group_leave group_rebalanced_more_than_once industrial_breakdown "
+    "industrial_inspection_failed industrial_no_show lb_backend_marked_unhealthy limiter_queued_or_dropped link_packet_lost "
+    "log_records_expired lsm_bloom_save lsm_compaction lsm_flush mq_dead_lettered mq_redelivered mq_refused_at_capacity "
+    "multileader_anti_entropy_random_peer multileader_conflict multipaxos_committed multitier_l1_eviction multitier_promotion "
+    "partition_dropped_messages paxos_decided paxos_nack_retry pb_replicated raft_command_committed raft_leader_elected "
+    "raft_second_election red_probabilistic_drop replicated_quorum_write rpc_retry softttl_stale_hit_refresh swim_indirect_probe "
+    "swim_suspected_or_dead topic_replay topic_unsubscribe ttl_server_expired_entry_miss writeback_policy_flush"
+).split()
+EXPECTED_PROBES += [f"probe.zoo.{n}" for n in ZOO_PROBES]
 
 HASHSEEDS = (0, 1, 4242)
 WALL_MODES = ("offset", "fast", "frozen")
